@@ -14,7 +14,8 @@
      (ser = the serialised text; no finding class: the yaml-load-nonstr-key defect is repaired,
       /repo commit 6120358, and a recurrence is a violation) *)
 From JV Require Import Lib.Base Lib.C20Text Lib.C20Regex Model.C20Base Gen.C20Operators Gen.C20Regexes Gen.C20Registry
-  Model.C20Restricted Model.C20RestrictedStr Spec.C20RestrictedSpec Model.C20Registered.
+  Model.C20Restricted Model.C20RestrictedStr Spec.C20RestrictedSpec Model.C20Registered Model.C20NumRegistry
+  Model.C20RegisterType.
 (* no dependency on Proofs/: the judge must still build when a proof breaks *)
 Local Open Scope Z_scope.
 
@@ -30,6 +31,8 @@ Inductive case :=
 | CBuiltin (kind : N) (ser : str) (all_equal : bool)
 | CStr (p : pat) (v : pyval) (acc : option str) (extras_ok : bool)
 | CStrHist (first second : pat) (flags1 flags2 : str) (same_name : bool) (v : pyval) (created : bool) (acc : option str)
+| CNumHist (t1 t2 : rtype) (same_name : bool) (v : pyval) (created : bool) (acc : option num)
+| CRegHist (ty : str) (h : serfn * desfn) (fail_already has_key refused : bool) (after : option (serfn * desfn))
 | CCrash (kind : N).    (* an exception outside the documented channel escaped, or the harness failed *)
 
 Definition prange_same (a b : prange) : bool :=
@@ -136,6 +139,38 @@ Definition judge1 (c : case) : verdict :=
                     end;
          v_class := if str_key_guard compile kf reg1 text flags2 then 0 else if same_name then 2 else 0;
          v_spec := negb created || option_eqb str_eqb (construct_str (compile text flags2) v) acc |}
+  | CNumHist t1 t2 same_name v created acc =>
+      (* two calls of restricted_number_type in a registry that holds neither key: name "A" with t1, then name "A"
+         (same_name) or "B" with t2; observed: did the second call hand back a type, and what that type made of v.
+         A refused creation (ValueError) is no wrong verdict; a type handed back must validate the comparisons
+         STATED in the second call. *)
+      let nameA := [65%N] in
+      let st1 := snd (create_num {| ns_reg := []; ns_names := [] |} nameA t1) in
+      let r := fst (create_num st1 (if same_name then nameA else [66%N]) t2) in
+      {| v_model := match r with
+                    | Some t => created && option_eqb num_eqb (construct t v) acc
+                    | None => negb created
+                    end;
+         v_class := 0;
+         v_spec := negb created
+                   || (valid_syms (r_restr t2)
+                       && option_eqb num_eqb (spec_construct (r_base t2) (r_restr t2) (r_join t2) v) acc) |}
+  | CRegHist ty h fail_already has_key refused after =>
+      (* one call register_type(ty, h, fail_already_registered=..., uniqueness_key=...) on the table as imported;
+         observed: ValueError or not, and the pair ty is bound to afterwards. With the default flags the pair of a
+         type that was registered before must be the one it had. *)
+      let pair_opt_eqb := option_eqb handler_eqb in
+      {| v_model := match register_type registry ty h fail_already has_key with
+                    | None => refused && pair_opt_eqb (reg_lookup registry ty) after
+                    | Some tbl' => negb refused && pair_opt_eqb (reg_lookup tbl' ty) after
+                    end;
+         v_class := 0;
+         v_spec := if fail_already && negb has_key
+                   then match reg_lookup registry ty with
+                        | Some h0 => pair_opt_eqb (Some h0) after
+                        | None => negb refused && pair_opt_eqb (Some h) after
+                        end
+                   else true |}
   | CCrash _ => {| v_model := false; v_class := 0; v_spec := false |}
   end.
 
